@@ -328,7 +328,7 @@ func ruleRecState(c *Ctx) {
 					}
 					readers = append(readers, root.Name())
 					if root.Name() != "execActions" {
-						badPos = in.Pos()
+						badPos = posOr(in.Pos(), fn.Pos())
 					}
 				}
 			})
@@ -759,7 +759,7 @@ func siblingPredicates(c *Ctx) {
 										continue
 									}
 								}
-								bad = ret.Pos()
+								bad = posOr(ret.Pos(), token.Pos(1))
 							}
 						}
 					}
